@@ -10,7 +10,7 @@ Per property:
      recorded observables with its own oracles, and compares the lattice with the specification's (drift).
 """
 import json, os, random, hashlib
-from . import common, absm
+from . import common, absm, geom
 from .common import run_tlc
 
 INF = absm.INF
@@ -61,7 +61,13 @@ class Snapper:
         m._match_states, m._match_non_emitting_states_inner, m._match_non_emitting_states_end = w_ms, w_ni, w_ne
 
     def snap(self, c, k, kind, values):
-        rows = [[self.conv(x.logprob), x.delayed, bool(x.stop)] for x in values]
+        values = list(values)
+        if self.conv == 'rank':       # dense ranks of the exact floats: order and ties are preserved exactly
+            order = sorted(set(x.logprob for x in values))
+            rk = {v: i for i, v in enumerate(order)}
+            rows = [[rk[x.logprob], x.delayed, bool(x.stop)] for x in values]
+        else:
+            rows = [[self.conv(x.logprob), x.delayed, bool(x.stop)] for x in values]
         if len(rows) > 1:
             self.snaps.append({'c': c, 'k': k, 'now': self.m.expand_now, 'W': self.m.max_lattice_width or 0,
                                'kind': kind, 'rows': rows})
@@ -216,8 +222,9 @@ def chain_instance(rng, allow):
             tab[st]['ti'].append(1)
     tr = {'move': rng.choice([0, -1]), 'moveNE': rng.choice([0, -1, -2]), 'back': -1}
     inst = absm.Inst(nodes, nbrs, T, tab, tr)
+    mlp = rng.choice([[-INF, 1], [-2, 1], [-3, 1], [-4, 1], [-5, 2]]) if 'cuts' in allow else [-INF, 1]
     cf = {'onlyEdges': only_edges, 'ne': True, 'W': (rng.choice([0, 0, 1, 2, 3]) if 'W' in allow else 0),
-          'maxDist': INF, 'maxDistInit': INF, 'minlp': [-INF, 1], 'neLen': -1, 'neMax': 100,
+          'maxDist': INF, 'maxDistInit': INF, 'minlp': mlp, 'neLen': -1, 'neMax': 100,
           'secondOrder': ('second' in allow and rng.random() < 0.2)}
     return inst, cf
 
@@ -259,6 +266,7 @@ def validate(chk, runs, pids, label, workers=16, timeout=3000):
     return v
 
 
+GALLOW = ('ne', 'W', 'nodes', 'cuts', 'goback')
 PLAN = {
     # pid: (MC config for the design-level check, EMIT config for replay (quick, thorough), random runs (quick, thorough),
     #       allowed features of random instances, op kinds, companion runs)
@@ -354,6 +362,14 @@ def run(chk):
                               sig={'clause': x['clause']})
             for x in v.get('DRIFT', []):
                 chk.spec_drift(f'run {run_["tid"]}: {x["clause"]} at event {x["at"]}')
+    # 4. the real Simple / Distance matchers on geometric instances
+    plan.setdefault('gallow', GALLOW)
+    ng = {'C03': (150, 1500), 'C04': (150, 1500), 'C05': (150, 1500), 'C06': (150, 1500), 'C07': (120, 1200),
+          'C08': (120, 1200), 'C09': (150, 1500)}.get(pid)
+    if ng:
+        geo_part(chk, pid, rng, ng[thorough], plan)
+    if pid in ('C02', 'C05'):
+        model_part(chk, pid, rng, 4000 if thorough else 1200)
     chk.count('abs-runs', evaluations=len(runs), nontrivial=nontriv, traces=len(runs), tlc_enumerated=n_tlc,
               events=sum(len(x['events']) for x in runs))
     ex = next((x for x in runs if nontrivial(pid, x)), runs[0])
@@ -364,6 +380,145 @@ def run(chk):
                'logprob_obs overrides with integer tables (documented extension points); '
                'ne_length_factor_log and min_logprob_norm set to exactly representable values')
     chk.assume('geometry and the two probability models are covered by the geometric families (C02/C05 B-part) and C13')
+
+
+# ------------------------------------------------------------------ real matchers (Simple / Distance)
+def geo_aux(inst, cf, n, conc):
+    evs, _ = geom.run_geo(inst, cf, conc, ops=[('match', n)], full=True)
+    o = evs[0]
+    if o['exc']:
+        return dict(NOAUX, present=True, empty=True, idx=-5)
+    empty = len(o['path']) == 0
+    lps = []
+    if not empty:
+        col = o['lat'][o['idx']]
+        lps = [e['lp'] for e in (col[0] if col else []) if not e['stop']]
+    return {'present': True, 'empty': empty, 'idx': o['idx'], 'lps': lps,
+            'path': [[[e['st'], e['obs'], e['ne']], e['lp']] for e in o['path']]}
+
+
+def record_geo(tid, inst, cf, ops, unique, want_aux):
+    conc = geom.Conc()
+    evs, m = geom.run_geo(inst, cf, conc, ops=ops, unique=unique, full=True, snapper=lambda mm: Snapper(mm, conv='rank'))
+    events = []
+    widened = False
+    W = cf['W']
+    for o in evs:
+        op, arg = o['op'], o['arg']
+        if op == 'widen':
+            W, widened = arg, True
+        n = arg if op != 'widen' else len(inst['path'])
+        aux = {'neoff': NOAUX, 'unpruned': NOAUX, 'wide': NOAUX, 'oneshot': NOAUX}
+        cur = dict(cf, W=W)
+        if op == 'match' and not o['exc']:
+            if 'C06' in want_aux and cf['ne'] and not W and not cf['avoid_goingback']:
+                aux['neoff'] = geo_aux(inst, dict(cur, ne=False), n, conc)
+            if 'C07' in want_aux and W:
+                aux['unpruned'] = geo_aux(inst, dict(cur, W=0), n, conc)
+                aux['wide'] = geo_aux(inst, dict(cur, W=1000), n, conc)
+        if op == 'extend' and not widened and not o['exc'] and 'C08' in want_aux:
+            aux['oneshot'] = geo_aux(inst, cur, n, conc)
+        ev = {k: o[k] for k in ('op', 'arg', 'w', 'unique', 'exc', 'states', 'idx', 'early', 'path', 'lat', 'now',
+                                'onlynodes', 'onlynodes_exc', 'snaps')}
+        ev['aux'] = aux
+        ev['dangling'] = absm_dangling_geo(m) if o is evs[-1] else []
+        events.append(ev)
+    return {'tid': tid, 'inst': geom.graph_tables(inst), 'cf': geom.spec_cf(cf), 'events': events,
+            'geo': {'inst': inst, 'cf': cf}}
+
+
+def absm_dangling_geo(m):
+    out = []
+    if not m.lattice:
+        return out
+    for c in range(len(m.lattice)):
+        for L in m.lattice[c].o:
+            for x in L.values():
+                for p in x.prev:
+                    col = m.lattice.get(p.obs)
+                    stored = col.o[p.obs_ne].get(p.key) if (col is not None and p.obs_ne < len(col.o)) else None
+                    if stored is not p:
+                        out.append([str(x.key), str(p.key)])
+    return out
+
+
+def geo_ops(rng, T, cf, kinds):
+    return rand_ops(rng, T, {'W': cf['W']}, kinds)
+
+
+def geo_part(chk, pid, rng, n, plan):
+    """table-free clauses on the real Simple / Distance matchers (graph, alignment, walk, cut-offs, selection,
+    relational properties, well-formedness)"""
+    runs = []
+    for i in range(n):
+        inst = geom.gen_instance(rng, maxn=6, maxT=5, G=rng.choice([2, 3, 4]))
+        allow = tuple(a for a in ('ne', 'W', 'nodes', 'cuts', 'goback') if a in plan['gallow'])
+        cf = geom.gen_config(rng, allow=allow)
+        if pid == 'C06':
+            cf.update(ne=True, W=0, avoid_goingback=False)
+        if pid == 'C07' and not cf['W']:
+            cf['W'] = rng.choice([1, 2, 3])
+        ops = geo_ops(rng, len(inst['path']), cf, plan['kinds'])
+        runs.append(record_geo(100000 + i, inst, cf, ops, rng.random() < 0.4, plan['aux']))
+    verdicts = validate(chk, [{k: v for k, v in r.items() if k != 'geo'} for r in runs], {pid}, f'{pid}_geo')
+    nontriv = 0
+    for run_ in runs:
+        nontriv += nontrivial(pid, run_) if pid not in ('C05',) else (run_['geo']['cf']['max_dist'] is not None or run_['geo']['cf']['min_prob_norm'] is not None)
+        for x in verdicts[run_['tid']].get(pid, []):
+            clause = x['clause']
+            chk.violation(f'real {run_["geo"]["cf"]["cls"]} matcher: recorded run rejected at event {x["at"]}: clause {clause}',
+                          {'kind': 'geo', 'inst': run_['geo']['inst'], 'cf': run_['geo']['cf'],
+                           'ops': [[e['op'], e['arg']] for e in run_['events']], 'unique': run_['events'][0]['unique'],
+                           'clause': clause, 'at': x['at']}, sig={'clause': clause, 'family': 'geo'})
+    chk.count('real-matcher-runs', evaluations=len(runs), nontrivial=nontriv, traces=len(runs))
+
+
+MODEL_GEOMETRY = ('distance-is-not-the-true-nearest-distance', 'distance-fields-inconsistent',
+                  'relative-position-is-not-the-nearest-point', 'matched-point-is-not-the-nearest-point')
+
+
+def model_part(chk, pid, rng, n):
+    """C02 / C05 on the real matchers: every lattice entry of fresh runs and every best-path state after any
+    history is validated by TLC against the documented scoring models and the exact geometry (spec/Models.tla)."""
+    recs, meta = [], {}
+    for i in range(n):
+        inst = geom.gen_instance(rng, maxn=6, maxT=5, G=rng.choice([2, 3, 4]))
+        cf = geom.gen_config(rng)
+        ops = geo_ops(rng, len(inst['path']), cf, ('extend', 'widen') if i % 3 == 0 else ())
+        rec, exc = geom.model_record(200000 + i, inst, cf, ops)
+        if rec is None:
+            continue
+        recs.append(rec)
+        meta[rec['tid']] = (inst, cf, ops)
+    path = os.path.join(common.scratch(), f'models_{pid}.json')
+    with open(path, 'w') as f:
+        json.dump(common.nonull({'runs': recs}), f)
+    r = run_tlc('Models', 'Models.cfg', workers=16, timeout=3000, env={'TRACE_FILE': path})
+    chk.tlc(r, f'Models: {len(recs)} recorded runs of the real matchers, {sum(len(x["entries"]) for x in recs)} lattice entries validated')
+    os.remove(path)
+    got = {x['tid']: x for x in r.json}
+    if len(got) != len(recs):
+        raise common.MachineryError('Models: missing verdicts: ' + r.tail[-1500:])
+    nontriv = 0
+    for rec in recs:
+        v = got[rec['tid']]
+        nontriv += len(rec['path']) >= 2
+        inst, cf, ops = meta[rec['tid']]
+        for clause, at, where in ((v['path_clause'], v['path_at'], 'best path'), (v['any_clause'], v['any_at'], 'lattice entry')):
+            if not clause:
+                continue
+            if pid == 'C05' and clause not in MODEL_GEOMETRY:
+                continue
+            if pid == 'C05' and where != 'best path':
+                continue
+            e = rec['entries'][at - 1]
+            chk.violation(f'real {cf["cls"]} matcher, {where} state {e["st"]} obs {e["obs"]} ne {e["ne"]}: {clause}',
+                          {'kind': 'model', 'inst': inst, 'cf': cf, 'ops': [list(o) for o in ops], 'clause': clause,
+                           'entry': e, 'prev': rec['entries'][e['prev'] - 1] if e['prev'] else None},
+                          sig={'clause': clause, 'where': where, 'after_widening': any(o[0] == 'widen' for o in ops)})
+            break
+    chk.count('model-validated-runs', evaluations=len(recs), nontrivial=nontriv, traces=len(recs),
+              lattice_entries=sum(len(x['entries']) for x in recs))
 
 
 RULES = {
